@@ -13,7 +13,7 @@ import (
 func init() {
 	register(&property{
 		ID:          "C06",
-		Explanation: "completeness and neutrality of certificate emission: (R6.1) every clause appended to the learned-clause database is written to the certificate by the same function when Certified is set; (R6.2) a literal produced by conflict analysis is bound at the top level only after it was written; (R6.3) on the way from Solve, Unsat is concluded only by the function that writes the empty clause first, and search functions return Unsat only as that function's result; (R6.4) code that runs only when Certified is set writes no solver state, so the flag cannot change the verdict; (R6.5) the stdout form and the channel form of each emission carry the same payload.",
+		Explanation: "completeness and neutrality of certificate certEmission: (R6.1) every clause appended to the learned-clause database is written to the certificate by the same function when Certified is set; (R6.2) a literal produced by conflict analysis is bound at the top level only after it was written; (R6.3) on the way from Solve, Unsat is concluded only by the function that writes the empty clause first, and search functions return Unsat only as that function's result; (R6.4) code that runs only when Certified is set writes no solver state, so the flag cannot change the verdict; (R6.5) the stdout form and the channel form of each certEmission carry the same payload.",
 		NotDecided:  "that each emitted clause is a reverse-unit-propagation consequence (soundness of first-UIP learning and minimisation): needs a replay of the certificate.",
 		Rules:       []ruleFn{ruleR6_1, ruleR6_2, ruleR6_3, ruleR6_4, ruleR6_5},
 	})
@@ -123,7 +123,7 @@ func (w *World) valueDesc(v ssa.Value) string {
 	return v.Name()
 }
 
-// payload normalises what an emission writes: format without trailing newline + argument descriptions; a lone
+// payload normalises what an certEmission writes: format without trailing newline + argument descriptions; a lone
 // "%s" is its argument.
 func (w *World) payload(format string, args []ssa.Value) string {
 	format = strings.TrimSuffix(format, "\n")
@@ -149,16 +149,16 @@ func (w *World) payloadOfValue(v ssa.Value) string {
 	return w.valueDesc(v)
 }
 
-// emission is one certificate write inside a Certified region.
-type emission struct {
+// certEmission is one certificate write inside a Certified region.
+type certEmission struct {
 	Ins     ssa.Instruction
 	ToChan  bool
 	Payload string
 	Values  []ssa.Value // values whose text is written (arguments / sent value)
 }
 
-func (w *World) emissions(fn *ssa.Function, reg certRegion) []emission {
-	var out []emission
+func (w *World) emissions(fn *ssa.Function, reg certRegion) []certEmission {
+	var out []certEmission
 	for b := range reg.Blocks {
 		for _, ins := range b.Instrs {
 			switch x := ins.(type) {
@@ -166,12 +166,12 @@ func (w *World) emissions(fn *ssa.Function, reg certRegion) []emission {
 				n := w.calleeName(&x.Call)
 				if n == "fmt.Printf" || n == "fmt.Print" || n == "fmt.Println" {
 					if f, as, ok := printfArgs(&x.Call); ok && n == "fmt.Printf" {
-						out = append(out, emission{x, false, w.payload(f, as), as})
+						out = append(out, certEmission{x, false, w.payload(f, as), as})
 					} else {
-						out = append(out, emission{x, false, "?", nil})
+						out = append(out, certEmission{x, false, "?", nil})
 					}
 				} else if cs := w.Callees[x]; len(cs) == 1 {
-					// an emission helper: a module function that prints / sends one of its string parameters
+					// an certEmission helper: a module function that prints / sends one of its string parameters
 					out = append(out, w.helperEmissions(x, cs[0])...)
 				}
 			case *ssa.Send:
@@ -182,7 +182,7 @@ func (w *World) emissions(fn *ssa.Function, reg certRegion) []emission {
 							vals = as
 						}
 					}
-					out = append(out, emission{x, true, w.payloadOfValue(x.X), vals})
+					out = append(out, certEmission{x, true, w.payloadOfValue(x.X), vals})
 				}
 			}
 		}
@@ -192,8 +192,8 @@ func (w *World) emissions(fn *ssa.Function, reg certRegion) []emission {
 }
 
 // helperEmissions maps the emissions of a helper `func (s *Solver) emit(line string)` back to its call site.
-func (w *World) helperEmissions(call *ssa.Call, callee *ssa.Function) []emission {
-	var out []emission
+func (w *World) helperEmissions(call *ssa.Call, callee *ssa.Function) []certEmission {
+	var out []certEmission
 	args := call.Call.Args
 	argOf := func(v ssa.Value) ssa.Value {
 		if i := paramIndex(callee, v); i >= 0 && i < len(args) {
@@ -207,17 +207,17 @@ func (w *World) helperEmissions(call *ssa.Call, callee *ssa.Function) []emission
 			if w.calleeName(&x.Call) == "fmt.Printf" {
 				if f, as, ok := printfArgs(&x.Call); ok && strings.TrimSuffix(f, "\n") == "%s" && len(as) == 1 {
 					if a := argOf(as[0]); a != nil && typeShort(a.Type()) == "string" {
-						out = append(out, emission{call, false, w.payloadOfValue(a), emissionValues(w, a)})
+						out = append(out, certEmission{call, false, w.payloadOfValue(a), emissionValues(w, a)})
 					}
 				}
 			}
 			if n := w.calleeName(&x.Call); n == "fmt.Println" || n == "fmt.Print" {
-				out = append(out, emission{call, false, "?", nil})
+				out = append(out, certEmission{call, false, "?", nil})
 			}
 		case *ssa.Send:
 			if _, ok := isFieldLoad(x.Chan, "solver.Solver", "CertChan"); ok {
 				if a := argOf(x.X); a != nil {
-					out = append(out, emission{call, true, w.payloadOfValue(a), emissionValues(w, a)})
+					out = append(out, certEmission{call, true, w.payloadOfValue(a), emissionValues(w, a)})
 				}
 			}
 		}
@@ -234,8 +234,8 @@ func emissionValues(w *World, v ssa.Value) []ssa.Value {
 	return []ssa.Value{v}
 }
 
-// mentions: does the emission write (the text of) value v, i.e. is v the receiver/argument of a written call?
-func mentions(e emission, v ssa.Value) bool {
+// mentions: does the certEmission write (the text of) value v, i.e. is v the receiver/argument of a written call?
+func mentions(e certEmission, v ssa.Value) bool {
 	var walk func(x ssa.Value, d int) bool
 	walk = func(x ssa.Value, d int) bool {
 		if x == v {
@@ -500,7 +500,7 @@ func ruleR6_3(w *World, r *Report) {
 			}
 			concluders = append(concluders, fn)
 			key := fmt.Sprintf("%s concludes Unsat #%d", w.FuncName(fn), i+1)
-			// every path from the Certified-true edge to the store passes an emission of the empty clause
+			// every path from the Certified-true edge to the store passes an certEmission of the empty clause
 			regs := certRegions(fn)
 			var dom *certRegion
 			for k := range regs {
@@ -518,7 +518,7 @@ func ruleR6_3(w *World, r *Report) {
 					emitBlocks[e.Ins.Block()] = true
 				}
 			}
-			// DFS from the true successor, not entering emission blocks
+			// DFS from the true successor, not entering certEmission blocks
 			seen := map[*ssa.BasicBlock]bool{}
 			var leak bool
 			var visit func(b *ssa.BasicBlock)
@@ -604,7 +604,7 @@ func ruleR6_4(w *World, r *Report) {
 			key := fmt.Sprintf("%s Certified region #%d", w.FuncName(fn), i+1)
 			var bad []string
 			if len(reg.Blocks) == 0 || len(w.emissions(fn, reg)) == 0 {
-				bad = append(bad, "this test of the Certified flag steers control flow that is not certificate emission (its true edge has no emission region of its own)")
+				bad = append(bad, "this test of the Certified flag steers control flow that is not certificate certEmission (its true edge has no certEmission region of its own)")
 			}
 			for b := range reg.Blocks {
 				for _, ins := range b.Instrs {
@@ -654,7 +654,7 @@ func ruleR6_4(w *World, r *Report) {
 				if _, ok := ref.(*ssa.DebugRef); ok {
 					continue
 				}
-				r.Bad("R6.4", w.FuncName(fn)+" uses Certified as a value", w.InstrPos(ref), "the Certified flag flows into a computation instead of only guarding emission")
+				r.Bad("R6.4", w.FuncName(fn)+" uses Certified as a value", w.InstrPos(ref), "the Certified flag flows into a computation instead of only guarding certEmission")
 			}
 		})
 	}
